@@ -248,11 +248,6 @@ struct Machine {
 				else { M.slot[a] = (variant & 1U) ? std::make_unique<Arr>(v) : std::make_unique<Arr>(std::as_const(v)); }
 				if(noncontig) { M.nt = true; }
 			} else if(action == O_ASSIGN_VIEW) {
-				if(m.empty() && v.size() != 0 && !known_mode()) {
-					// recorded known finding (C04): assigning a view with zero elements but non-zero leading size takes the "reshape and assign" branch and asserts
-					M.ctx.count("excluded_assign_zero_element_view"); M.ctx.desc << " (excluded)";
-					return;
-				}
 				if(M.model[a].ext != want.ext || noncontig) { M.nt = true; }
 				M.unknown[a] = true; M.alloc_flex[a] = true;
 				if(variant & 1U) { *M.slot[a] = v; } else { *M.slot[a] = std::as_const(v); }
